@@ -118,28 +118,46 @@ fn attr_local_collision(w: &World, st: &Step) -> bool {
             local_of(&n.name) == local && n.prefix.as_deref() != prefix
         })
     };
+    // the same identification reaches the (hidden) namespace declarations: an attribute call whose local
+    // name is a prefix the element declares replaces or removes the declaration (the generated documents
+    // declare p and q on the document element)
+    let hits_declaration = |el: Mid, name: &str| -> bool {
+        // (which element carries the declarations is not tracked by the model — a former document element
+        // may sit anywhere after moves — so the region is taken by name alone)
+        let local = local_of(name);
+        let _ = el;
+        !name.starts_with("xmlns") && (local == "p" || local == "q")
+    };
     match &st.op {
+        Op::RemoveAttribute { el, name } => match w.model.node_slot(*el) {
+            Some(e) => hits_declaration(e, name),
+            None => false,
+        },
+        Op::MapRemoveNamedItem { map, name, .. } => match w.model.slot(*map) {
+            Some(MSlot::Map(e)) => hits_declaration(*e, name),
+            _ => false,
+        },
         Op::SetAttribute { el, name, .. } => match w.model.node_slot(*el) {
             Some(e) => {
                 let (p, l) = match name.split_once(':') {
                     Some((p, l)) => (Some(p), l),
                     None => (None, name.as_str()),
                 };
-                collides(e, l, p)
+                collides(e, l, p) || hits_declaration(e, name)
             }
             None => false,
         },
         Op::SetAttributeNode { el, attr, .. } => match (w.model.node_slot(*el), w.model.node_slot(*attr)) {
             (Some(e), Some(a)) => {
                 let n = &w.model.nodes[a];
-                n.kind == Kind::Attr && collides(e, local_of(&n.name), n.prefix.as_deref())
+                n.kind == Kind::Attr && (collides(e, local_of(&n.name), n.prefix.as_deref()) || (!n.nsdecl && hits_declaration(e, &n.name)))
             }
             _ => false,
         },
         Op::MapSetNamedItem { map, attr, .. } => match (w.model.slot(*map), w.model.node_slot(*attr)) {
             (Some(MSlot::Map(e)), Some(a)) => {
                 let n = &w.model.nodes[a];
-                n.kind == Kind::Attr && collides(*e, local_of(&n.name), n.prefix.as_deref())
+                n.kind == Kind::Attr && (collides(*e, local_of(&n.name), n.prefix.as_deref()) || (!n.nsdecl && hits_declaration(*e, &n.name)))
             }
             _ => false,
         },
@@ -161,7 +179,13 @@ fn defaulted_attr_object_mutated(_w: &World, st: &Step) -> bool {
     matches!(&st.op, Op::Probe { which, .. } if *which < 3)
 }
 
+/// set_attribute with a value containing '&': the library reads the value as attribute markup
+fn attr_value_with_reference(_w: &World, st: &Step) -> bool {
+    matches!(&st.op, Op::SetAttribute { value, .. } if value.contains('&'))
+}
+
 pub const TRIGGERS: &[(&str, Pred)] = &[
+    ("attr_value_with_reference", attr_value_with_reference),
     ("defaulted_attr_object_mutated", defaulted_attr_object_mutated),
     ("fragment_insert", fragment_insert),
     ("attr_local_collision", attr_local_collision),
